@@ -155,8 +155,8 @@ def _load_v2(stream: InventoryFileReader, base_url: str | None) -> InventoryType
             continue
         if (
             type == "py:module"
-            and type in invdata["objects"]
-            and name in invdata["objects"][type]
+            and "module" in invdata["objects"].get("py", {})
+            and name in invdata["objects"]["py"]["module"]
         ):
             # due to a bug in 1.1 and below,
             # two inventory entries are created
